@@ -21,7 +21,7 @@ class Calls:
         'cond_name': None, 'has_default': None, 'replace_typevars': None, 'make_field': 'any',
         'write': 'any', 'read': 'any', 'close': None, 'extend': None, 'fromkeys': None, 'discard': None,
         'remove': ['KeyError', 'ValueError'], 'index': ['ValueError'], 'count': None, 'endswith': None,
-        'strip': None, 'encode': ['UnicodeError'], 'decode': ['UnicodeError'],
+        'strip': None, 'encode': ['UnicodeError'], 'decode': ['UnicodeError'], 'print_error': None,
     }
     KNOWN_FUNCS = {'re.compile', 're.split', 'traceback.TracebackException', 'traceback.format_exception',
                    'itertools.chain', 'itertools.chain.from_iterable', 'functools.reduce', 'operator.or_',
@@ -34,7 +34,7 @@ class Calls:
                      'is_none', 'hashable', 'callraises', 'call', 'fresh_obj', 'is_int_key', 'int_key', 'ite', 'attr',
                      'has_attr', 'catches', 'exc_is', 'iff', 'dynattr', 'truthy', 'key_at', 'idx_of', 'old', 'is_fresh',
                      'seq_of', 'card', 'same_elements', 'typeof', 'callv', 'callvraises', 'isinst_dyn', 'lt', 'unhashable_any',
-                     'mhas', 'mget', 'shas', 'without_key', 're_compile_raises', 're_compile', 'as_map', 'as_seq', 'as_set', 'sat', 'slen', 'mlen', 'methraises', 'methcall', 'gen_of', 'nth_where', 'count_where', 'ghost', 'zlen', 'isfinite', 'ret_make_converter', 'ret_into_data', 'ret', 'retc', 'clsref', 'attr_named', 'ext', 'did_call', 'exited', 'cm_enter', 'clsref_dotted', 'List', 'id_of', 'fnref', 'called', 'hash_of', 'forall_bools4', 'methv', 'getattr', 'kept_seq', 'get_origin', 'get_args', 'callraises_as', 'isabstract', 'issub'}
+                     'mhas', 'mget', 'shas', 'without_key', 're_compile_raises', 're_compile', 'as_map', 'as_seq', 'as_set', 'sat', 'slen', 'mlen', 'methraises', 'methcall', 'gen_of', 'nth_where', 'count_where', 'ghost', 'zlen', 'isfinite', 'ret_make_converter', 'ret_into_data', 'ret', 'retc', 'clsref', 'attr_named', 'ext', 'did_call', 'exited', 'cm_enter', 'clsref_dotted', 'List', 'ghost_int', 'id_of', 'fnref', 'called', 'hash_of', 'forall_bools4', 'methv', 'getattr', 'kept_seq', 'get_origin', 'get_args', 'callraises_as', 'isabstract', 'issub'}
 
     # ------------------------------------------------------------------------------------
     def ev_Call(self, node, st):
@@ -483,7 +483,12 @@ class Calls:
         renv = dict(penv)
         renv['result'] = result
         for (lam, props, label) in con.ensures:
-            s_ok.add(self.eval_clause(lam, renv, s_ok))
+            if any(isinstance(n, ast.Name) and n.id in ('exited', 'did_call', 'called') for n in ast.walk(lam.body)):
+                continue        # clauses about the callee's own ghost logs say nothing in the caller's state
+            try:
+                s_ok.add(self.eval_clause(lam, renv, s_ok))
+            except ClauseNotApplicable:
+                continue
         outs.append((result, s_ok))
         if not z3.is_true(ok_cond) and not self.spec_mode:
             s_ex = st.fork().add(z3.Not(ok_cond))
